@@ -569,6 +569,10 @@ def run(replay=None):
                    'answer': show(rec.get('got') if rc['kind'] in ('addr', 'hist') else rec.get('pubhex'),
                                   rc['kind'] in ('addr', 'hist'))},
                   limit=8)
+    if not replay:
+        # specification growth beyond the listed properties: the network reference table and its lookups (Networks.tla)
+        from harness import networks
+        networks.run_section(ck, thorough)
     ck.notes['records'] = {k: sum(1 for rc in recipes if rc['kind'] == k) for k in ('priv', 'pub', 'addr', 'hist')}
     ck.notes['accepted_by_implementation'] = nacc
     ck.notes['wif_strings_generated_by_spec'] = len(wifs)
